@@ -16,9 +16,9 @@ CONSTANT TraceFile
 
 Trace == ndJsonDeserialize(TraceFile)
 
-VARIABLES l, viol, drift, ntx
+VARIABLES l, viol, drift, ntx, callStart
 
-tvars == <<vars, l, viol, drift, ntx>>
+tvars == <<vars, l, viol, drift, ntx, callStart>>
 
 Line == Trace[l]
 
@@ -43,6 +43,7 @@ ResetTo(x) ==
   /\ qtick' = 1
   /\ queue' = <<>> /\ running' = FALSE
   /\ veto' = {} /\ nest' = <<>>
+  /\ pan' = {} /\ stall' = {} /\ wedged' = FALSE
   /\ first' = "none" /\ atCall' = None /\ firstTx' = None
   /\ prev' = None /\ obs' = [kind |-> "init"]
   /\ verdict' = AllTrue
@@ -57,7 +58,7 @@ InitDrift(x) ==
                \/ x.topo \in TopoSet(x.schema, x.index) THEN {} ELSE {"topology"})
 
 TraceInit ==
-  /\ l = 2 /\ viol = {} /\ ntx = 0
+  /\ l = 2 /\ viol = {} /\ ntx = 0 /\ callStart = 1
   /\ Trace[1].ev = "init"
   /\ drift = {<<1, d>> : d \in InitDrift(Trace[1])}
   /\ LET x == Trace[1] IN
@@ -67,11 +68,14 @@ EvInit ==
   /\ Line.ev = "init"
   /\ ResetTo(Line)
   /\ drift' = drift \cup {<<l, d>> : d \in InitDrift(Line)}
-  /\ UNCHANGED <<viol, ntx>>
+  /\ UNCHANGED <<viol, ntx, callStart>>
 
 EvCall ==
   /\ Line.ev = "call"
-  /\ Call(Line.type, Line.called, Line.check, PairSet(Line.veto), NestOf(Line.nest))
+  /\ CallF(Line.type, Line.called, Line.check, PairSet(Line.veto), NestOf(Line.nest),
+           IF "panic" \in DOMAIN Line THEN PairSet(Line.panic) ELSE {},
+           IF "stall" \in DOMAIN Line THEN PairSet(Line.stall) ELSE {})
+  /\ callStart' = l
   /\ UNCHANGED <<viol, drift, ntx>>
 
 LoggedObs(x) ==
@@ -86,6 +90,10 @@ LoggedObs(x) ==
    vetoed |-> PairSet(x.vetoed),
    applied |-> (x.accepted /\ ~x.mut.check),
    tlog |-> x.tlog,
+   pan |-> pan, stall |-> stall, vetoedOnly |-> veto,
+   faulted |-> \E i \in 1..Len(x.hlog) :
+                 /\ <<x.hlog[i].b, x.hlog[i].h>> \in (pan \cup stall)
+                 /\ <<x.hlog[i].b, x.hlog[i].h>> \notin veto,
    qtick |-> x.qtick]
 
 SameMut(a, b) ==   \* queue head vs logged mutation (auto: order is a Go map's)
@@ -102,25 +110,32 @@ EvTx ==
          head == IF queue = <<>> THEN Mut("none", <<>>, FALSE, FALSE, 0) ELSE Head(queue)
          mut == Mut(x.mut.type, x.mut.called, x.mut.auto, x.mut.check,
                     IF queue = <<>> THEN 0 ELSE head.tick)
-         r == RunTx(Fx, sch, idx, topo, hs,
-                    [active |-> active, clock |-> clock], mut, veto)
+         r == RunTxF(Fx, sch, idx, topo, hs,
+                     [active |-> active, clock |-> clock, wedged |-> wedged], mut,
+                     [veto |-> veto, pan |-> pan, stall |-> stall])
          qt == qtick + (IF mut.tick > 0 THEN 1 ELSE 0)
          pre == TxObs(mut, r, qt, veto)
+         excs == [i \in 1..r.nexc |-> Mut("add", <<"Exception">>, FALSE, FALSE, 0)]
          d == UNION {
                 IF queue # <<>> /\ SameMut(head, x.mut) THEN {} ELSE {"queue.head"},
                 IF active = x.before THEN {} ELSE {"pre.active"},
                 IF TimeOf(idx, clock) = x.tb THEN {} ELSE {"pre.time"},
                 IF r.crash THEN {"crash.predicted"} ELSE {},
+                IF r.hang THEN {"hang.predicted"} ELSE {},
+                IF pre.faulted = o.faulted THEN {} ELSE {"faulted"},
                 IF pre.after = o.after THEN {} ELSE {"after"},
                 IF pre.mtime = o.mtime THEN {} ELSE {"mtime"},
-                IF pre.ta = o.ta THEN {} ELSE {"ta"},
+                IF pre.ta = o.ta \/ o.faulted THEN {} ELSE {"ta"},
                 IF pre.tp = o.tp THEN {} ELSE {"tp"},
                 IF pre.accepted = o.accepted THEN {} ELSE {"accepted"},
                 IF pre.target = o.target THEN {} ELSE {"target"},
                 IF r.target0 = o.target0 THEN {} ELSE {"target0"},
                 IF pre.exits = o.exits THEN {} ELSE {"exits"},
                 IF pre.enters = o.enters THEN {} ELSE {"enters"},
-                IF pre.hlog = o.hlog THEN {} ELSE {"hlog"},
+                IF (IF o.faulted
+                    THEN [i \in 1..Len(pre.hlog) |-> <<pre.hlog[i].b, pre.hlog[i].h>>]
+                         = [i \in 1..Len(o.hlog) |-> <<o.hlog[i].b, o.hlog[i].h>>]
+                    ELSE pre.hlog = o.hlog) THEN {} ELSE {"hlog"},
                 IF pre.vetoed = o.vetoed THEN {} ELSE {"vetoed"},
                 IF pre.tlog = o.tlog THEN {} ELSE {"tlog"},
                 IF qt = o.qtick THEN {} ELSE {"qtick"}}
@@ -130,7 +145,9 @@ EvTx ==
      IN /\ active' = o.after
         /\ clock' = ClockOf(idx, o.mtime)
         /\ qtick' = o.qtick
-        /\ queue' = autoq \o NestedAppend(IF queue = <<>> THEN <<>> ELSE Tail(queue), o.hlog, qt)
+        /\ queue' = excs \o autoq
+                     \o NestedAppend(IF queue = <<>> THEN <<>> ELSE Tail(queue), o.hlog, qt)
+        /\ wedged' = r.wedged
         /\ first' = IF first = "none" THEN r.result ELSE first
         /\ firstTx' = IF firstTx = None THEN o ELSE firstTx
         /\ prev' = p
@@ -139,7 +156,8 @@ EvTx ==
         /\ viol' = viol \cup {<<l, f>> : f \in Fails(v)}
         /\ drift' = drift \cup {<<l, f>> : f \in d}
         /\ ntx' = ntx + 1
-        /\ UNCHANGED <<cfgVars, running, veto, nest, atCall, ncalls>>
+        /\ pan' = pan \ r.fired /\ stall' = stall \ r.fired
+        /\ UNCHANGED <<cfgVars, running, veto, nest, atCall, ncalls, callStart>>
 
 (* C01: every view of the machine agrees with every other                     *)
 ViewsAgree(ix, v) ==
@@ -156,58 +174,79 @@ ViewsAgree(ix, v) ==
   /\ Len(v.strall) = Len(ix)
   /\ Len(v.str) = Len(v.active)
 
+(* fired faults of the transitions of the current call (lines after callStart) *)
+CallTxLines == {k \in (callStart + 1)..(l - 1) : Trace[k].ev = "tx"}
+FiredIn(k, S) == \E i \in 1..Len(Trace[k].hlog) :
+                   /\ <<Trace[k].hlog[i].b, Trace[k].hlog[i].h>> \in S
+                   /\ <<Trace[k].hlog[i].b, Trace[k].hlog[i].h>> \notin veto
+CallPan == IF "panic" \in DOMAIN Trace[callStart] THEN PairSet(Trace[callStart].panic) ELSE {}
+CallStall == IF "stall" \in DOMAIN Trace[callStart] THEN PairSet(Trace[callStart].stall) ELSE {}
+IsExcLine(k) == SHas(Trace[k].mut.called, "Exception")
+
 EvRet ==
   /\ Line.ev = "ret"
   /\ LET x == Line
          p == IF obs.kind = "tx" THEN obs ELSE prev
          o == [kind |-> "ret", res |-> x.res, mtime |-> x.time,
                call |-> [mut |-> atCall.mut, res |-> x.res,
-                         selfMutating |-> nest # <<>>,
+                         selfMutating |-> nest # <<>> \/ CallPan # {} \/ CallStall # {},
                          before |-> atCall.active, tb |-> atCall.time, qb |-> atCall.qtick,
                          after |-> x.active, ta |-> x.time, qa |-> x.qtick,
                          after1 |-> IF firstTx = None THEN x.active ELSE firstTx.after,
                          target |-> IF firstTx = None THEN <<>> ELSE firstTx.target]]
          panicked == x.res = "panic"
-         v0 == IF panicked THEN [AllTrue EXCEPT !.nocrash = FALSE] ELSE RetVerdict(p, o)
-         v == IF "views" \in DOMAIN x /\ ~panicked
+         hung == x.res = "hang"
+         lost == panicked \/ hung
+         panicOutside == \E k \in CallTxLines : ~IsExcLine(k) /\ FiredIn(k, CallPan)
+         faultInExc == \E k \in CallTxLines : IsExcLine(k) /\ FiredIn(k, CallPan \cup CallStall)
+         stallFired == \E k \in CallTxLines : FiredIn(k, CallStall)
+         c08ret == /\ (panicOutside /\ ~faultInExc) => (x.iserr /\ x.errhas)
+                   /\ stallFired => x.errinternal >= 1
+         v0 == IF lost THEN [AllTrue EXCEPT !.nocrash = ~panicked, !.nohang = ~hung]
+               ELSE IF firstTx # None /\ firstTx.faulted
+                    THEN [AllTrue EXCEPT !.c08 = c08ret]
+                    ELSE [RetVerdict(p, o) EXCEPT !.c08 = c08ret]
+         v == IF "views" \in DOMAIN x /\ ~lost
               THEN [v0 EXCEPT !.c01 = ViewsAgree(idx, x.views)
                                       /\ x.views.active = x.active /\ x.views.time = x.time]
               ELSE v0
+         rnext == IF queue = <<>> THEN [crash |-> FALSE, hang |-> FALSE]
+                  ELSE RunTxF(Fx, sch, idx, topo, hs,
+                              [active |-> active, clock |-> clock, wedged |-> wedged],
+                              Head(queue), [veto |-> veto, pan |-> pan, stall |-> stall])
          d == UNION {
-                IF panicked THEN {} ELSE
+                IF lost THEN {} ELSE
                   UNION {IF queue = <<>> THEN {} ELSE {"queue.nonempty"},
                          IF first = x.res THEN {} ELSE {"result"},
                          IF active = x.active THEN {} ELSE {"ret.active"},
                          IF TimeOf(idx, clock) = x.time THEN {} ELSE {"ret.time"},
                          IF qtick = x.qtick THEN {} ELSE {"ret.qtick"},
                          IF x.qlen = 0 THEN {} ELSE {"ret.qlen"}},
-                IF panicked /\ ~(queue # <<>> /\
-                     RunTx(Fx, sch, idx, topo, hs,
-                           [active |-> active, clock |-> clock], Head(queue), veto).crash)
-                THEN {"crash.unpredicted"} ELSE {}}
+                IF panicked /\ ~rnext.crash THEN {"crash.unpredicted"} ELSE {},
+                IF hung /\ ~rnext.hang THEN {"hang.unpredicted"} ELSE {}}
      IN /\ running' = FALSE
         /\ queue' = <<>>
-        /\ active' = IF panicked THEN active ELSE x.active
-        /\ clock' = IF panicked THEN clock ELSE ClockOf(idx, x.time)
-        /\ qtick' = IF panicked THEN qtick ELSE x.qtick
+        /\ active' = IF lost THEN active ELSE x.active
+        /\ clock' = IF lost THEN clock ELSE ClockOf(idx, x.time)
+        /\ qtick' = IF lost THEN qtick ELSE x.qtick
         /\ prev' = p
         /\ obs' = o
         /\ verdict' = v
         /\ viol' = viol \cup {<<l, f>> : f \in Fails(v)}
         /\ drift' = drift \cup {<<l, f>> : f \in d}
         /\ first' = "none" /\ atCall' = None /\ firstTx' = None
-        /\ UNCHANGED <<cfgVars, veto, nest, ncalls, ntx>>
+        /\ UNCHANGED <<cfgVars, veto, nest, pan, stall, wedged, ncalls, ntx, callStart>>
 
 EvStray ==   \* a tracer / handler callback outside any transition
   /\ Line.ev = "stray"
   /\ viol' = viol \cup {<<l, "c14">>}
-  /\ UNCHANGED <<vars, drift, ntx>>
+  /\ UNCHANGED <<vars, drift, ntx, callStart>>
 
 Done ==
   /\ l = Len(Trace) + 1
   /\ PrintT(<<"RESULT", ToJson([lines |-> Len(Trace), ntx |-> ntx,
                                 viol |-> viol, drift |-> drift])>>)
-  /\ UNCHANGED <<vars, viol, drift, ntx>>
+  /\ UNCHANGED <<vars, viol, drift, ntx, callStart>>
 
 TraceNext ==
   \/ /\ l <= Len(Trace)
